@@ -10,7 +10,7 @@ CONSTANTS
   Keeps = {FALSE}
   LPorts = {5060}
   Pools = {"two"}
-  Learns = {"none", "hop.p1", "hop.p2"}
+  Learns = {"none", "hop.p1", "hop.bk", "hop.p2"}
   MustRRs = {TRUE, FALSE}
   Recvs = {TRUE}
   HdrOrders = {"std", "from1st", "mf1st", "nofrommf", "viaLast", "rr1st", "clenmid"}
